@@ -108,6 +108,10 @@ pub struct Case {
     /// the foreign denomination differs from the bonded one only in the case of its letters
     #[serde(default)]
     pub lookalike_foreign: bool,
+    /// the chain runs with the documented default staking parameters (TOKEN, 60 s, 10 %) and `setup` is
+    /// never called
+    #[serde(default)]
+    pub default_params: bool,
     pub ops: Vec<SOp>,
 }
 
@@ -1063,7 +1067,8 @@ pub fn build(case: &Case) -> Run {
     let mut names = Names { prefix: prefix.to_string(), ..Default::default() };
     names.accounts = addrs.clone();
     names.ghosts = (0..4).map(|i| api.addr_make(&format!("ghost{}", i)).to_string()).collect();
-    let denom = DENOMS[case.bonded as usize % DENOMS.len()].to_string();
+    let default_params = case.default_params;
+    let denom = if default_params { "TOKEN".to_string() } else { DENOMS[case.bonded as usize % DENOMS.len()].to_string() };
     let foreign_denom = if case.lookalike_foreign {
         // "TOKEN" -> "token", "ustake" -> "USTAKE", "atom" -> "ATOM"
         if denom.chars().any(|c| c.is_ascii_uppercase()) { denom.to_ascii_lowercase() } else { denom.to_ascii_uppercase() }
@@ -1073,10 +1078,10 @@ pub fn build(case: &Case) -> Run {
     names.denoms = vec![denom.clone(), foreign_denom.clone()];
     names.validators = validators.clone();
     world.0.borrow_mut().names = names;
-    let apr = case.apr.min(10_000);
+    let apr = if default_params { 1_000 } else { case.apr.min(10_000) };
     let commissions: Vec<u32> = (0..nv).map(|i| case.commissions.get(i).copied().unwrap_or(0).min(10_000)).collect();
     let init = case.init_balance.min(1_000_000_000) as u128;
-    let unbonding = case.unbonding_secs.min(30 * 86400);
+    let unbonding = if default_params { 60 } else { case.unbonding_secs.min(30 * 86400) };
     let addrs2 = addrs.clone();
     let vals2 = validators.clone();
     let comm2 = commissions.clone();
@@ -1098,11 +1103,13 @@ pub fn build(case: &Case) -> Run {
             for a in addrs2.iter().take(nd) {
                 router.bank.inner.init_balance(storage, &Addr::unchecked(a.clone()), vec![coin(init, denom2.clone()), coin(1000, foreign2.clone())]).unwrap();
             }
-            router
-                .staking
-                .inner
-                .setup(storage, StakingInfo { bonded_denom: denom2.clone(), unbonding_time: unbonding, apr: Decimal::from_ratio(apr, 10_000u128) })
-                .unwrap();
+            if !default_params {
+                router
+                    .staking
+                    .inner
+                    .setup(storage, StakingInfo { bonded_denom: denom2.clone(), unbonding_time: unbonding, apr: Decimal::from_ratio(apr, 10_000u128) })
+                    .unwrap();
+            }
             let block = mock_env().block;
             for (i, v) in vals2.iter().enumerate() {
                 router
@@ -1400,6 +1407,7 @@ impl Engine for StakeSim {
             decoy: rng.chance(1, 4),
             plain_validators: rng.chance(1, 5),
             lookalike_foreign: rng.chance(1, 3),
+            default_params: rng.chance(1, 8),
             ops,
         }
     }
